@@ -1760,6 +1760,12 @@ def b_join(sep):
         if any(is_symbytes(i) for i in items) or isinstance(sep, bytes) and any(is_sym(i) for i in items):
             zs = [to_z3bytes(i) for i in items]
             return z3.Concat(*zs) if len(zs) > 1 else zs[0] if zs else b""
+        if isinstance(sep, str) and any(is_symstr(i) for i in items):
+            zs = []
+            for k_, i in enumerate(items):
+                if k_ and sep: zs.append(z3.StringVal(sep))
+                zs.append(zstr(i))
+            return z3.Concat(*zs) if len(zs) > 1 else zs[0]
         return sep.join(items)
     return fn
 
